@@ -117,7 +117,7 @@ func c09Val() []byte { return verifrt.Bytes(verifrt.Len(2)) }
 func VerifC09History() {
 	steps := 3
 	if verifrt.Thorough() {
-		steps = 5
+		steps = 4
 	}
 	c := c09Conf{
 		maxSize:  [...]uint{0, 2, 4}[verifrt.Choice(3)],
@@ -269,10 +269,8 @@ func (m *c09Model) setHooked(c c09Conf, key, val []byte, hook func()) (replaced 
 // VerifC09Reentrant: LRU caches whose OnDelete callback performs one
 // arbitrary operation on the cache (calls from inside the callback).
 func VerifC09Reentrant() {
+	// (three outer Sets do not finish within the thorough budget)
 	steps := 2
-	if verifrt.Thorough() {
-		steps = 3
-	}
 	c := c09Conf{
 		maxSize:  [...]uint{0, 3}[verifrt.Choice(2)],
 		maxCount: [...]uint{1, 2}[verifrt.Choice(2)],
